@@ -15,6 +15,7 @@ env.install()
 
 from vlib import budget  # noqa: E402
 from vlib import vectors  # noqa: E402
+from vlib import refcodec as rc  # noqa: E402
 from vlib.runner import hyp_run  # noqa: E402
 from vlib.util import exc_sig  # noqa: E402
 
@@ -55,7 +56,9 @@ from yabgp.message.attribute.atomicaggregate import AtomicAggregate  # noqa: E40
 PROPERTY = 'C11'
 RULE = ('per decoder: all byte strings of <= 2 octets (exhaustive), every single-octet mutation (5 values per '
         'position), truncation and extension of every byte string harvested from the unit tests, every registered '
-        'link-state TLV type x sub-length 0..16 x filler patterns, Hypothesis random / TLV-soup inputs up to 4096 '
+        'link-state TLV type x sub-length 0..16 x filler patterns, every octet position of ~30 well-formed UPDATE '
+        'bodies (one per address family / route type, built with the reference encoder) set to each of 60 boundary '
+        'values (all 256 in the thorough tier) through Update.parse, Hypothesis random / TLV-soup inputs up to 4096 '
         'octets. Non-trivial = input of >= 3 octets that is not one of the harvested valid encodings, or one of the '
         'exhaustive short strings; distinct by (decoder, bytes).')
 ASSUMPTIONS = [
@@ -219,6 +222,89 @@ def mutations(v, max_pos=160):
         yield v + b'\xff' * k
 
 
+# ---- structured UPDATE bodies (built with the reference encoder) and field-value mutation ----------
+_CORPUS = None
+QUICK_VALUES = sorted(set(range(0, 41)) | {63, 64, 65, 96, 120, 127, 128, 129, 130, 136, 144, 160, 192, 200, 224,
+                                            240, 248, 254, 255})
+
+
+def structured_corpus():
+    """One well-formed UPDATE body per family / attribute mix, plus the unit tests' in-range bodies."""
+    global _CORPUS
+    if _CORPUS is not None:
+        return _CORPUS
+    base = rc.a_origin(0) + rc.a_as_path([(2, [65001, 65002])], True)
+    rd_b = rc.rd('65001:10')
+    esi_b = rc.esi(0, value=5)
+    nh6 = rc.ip6('2001:db8::1')
+    ll6 = rc.ip6('fe80::1')
+    vnh4 = b'\x00' * 8 + rc.ip4('10.0.0.1')
+    vnh6 = b'\x00' * 8 + nh6
+    out = []
+
+    def add(name, **kw):
+        out.append((name, rc.update_body(**kw)))
+    add('v4-classic', withdrawn=rc.prefix4('10.9.0.0/16') + rc.prefix4('10.8.1.0/24'),
+        attrs=base + rc.a_next_hop('10.0.0.1') + rc.a_med(5) + rc.a_local_pref(100) + rc.a_atomic() +
+        rc.a_aggregator(65001, '10.0.0.9', True) + rc.a_communities([0xFFFFFF01, 65001 << 16 | 7]) +
+        rc.a_originator('10.0.0.3') + rc.a_cluster_list(['10.0.0.4', '10.0.0.5']) +
+        rc.a_ext_communities([b'\x00\x02\xfd\xe9\x00\x00\x00\x64', b'\x03\x0c\x00\x00\x00\x00\x00\x08']) +
+        rc.a_large_communities([(65001, 1, 2)]),
+        nlri=rc.prefix4('192.168.1.0/24') + rc.prefix4('172.16.0.0/12') + rc.prefix4('0.0.0.0/0'))
+    add('mp-v4u', attrs=base + rc.a_mp_reach(1, 1, rc.ip4('10.0.0.1'), rc.prefix4('10.1.0.0/16') + rc.prefix4('10.2.3.0/24')))
+    add('mp-v6u', attrs=base + rc.a_mp_reach(2, 1, nh6, rc.prefix6('2001:db8:1::/48') + rc.prefix6('2001:db8:2:3::/64')))
+    add('mp-v6u-ll', attrs=base + rc.a_mp_reach(2, 1, nh6 + ll6, rc.prefix6('2001:db8:1::/64') + rc.prefix6('::/0')))
+    add('mp-v6u-unreach', attrs=rc.a_mp_unreach(2, 1, rc.prefix6('2001:db8:1::/48') + rc.prefix6('2001:db8::/127')))
+    add('mp-lu4', attrs=base + rc.a_mp_reach(1, 4, rc.ip4('10.0.0.1'), rc.labeled_route('10.1.0.0/16', [100]) +
+                                             rc.labeled_route('10.2.3.0/24', [200, 300])))
+    add('mp-lu6', attrs=base + rc.a_mp_reach(2, 4, nh6, rc.labeled_route('2001:db8:1::/48', [100])))
+    add('mp-lu4-unreach', attrs=rc.a_mp_unreach(1, 4, rc.labeled_route('10.1.0.0/16', [], raw_label=rc.WITHDRAW_LABEL)))
+    add('mp-vpn4', attrs=base + rc.a_ext_communities([b'\x00\x02\xfd\xe9\x00\x00\x00\x64']) +
+        rc.a_mp_reach(1, 128, vnh4, rc.vpn_route('10.1.0.0/16', rd_b, [100]) + rc.vpn_route('10.2.3.4/32', rd_b, [7])))
+    add('mp-vpn4-unreach', attrs=rc.a_mp_unreach(1, 128, rc.vpn_route('10.1.0.0/16', rd_b, [], raw_label=rc.WITHDRAW_LABEL)))
+    add('mp-vpn6', attrs=base + rc.a_mp_reach(2, 128, vnh6, rc.vpn_route('2001:db8:1::/48', rd_b, [100])))
+    add('mp-vpn6-unreach', attrs=rc.a_mp_unreach(2, 128, rc.vpn_route('2001:db8:1::/48', rd_b, [], raw_label=rc.WITHDRAW_LABEL)))
+    evpn = [rc.evpn_type1(rd_b, esi_b, 100, [10]),
+            rc.evpn_type2(rd_b, esi_b, 100, '00-11-22-33-44-55', '10.1.1.1', [10]),
+            rc.evpn_type2(rd_b, esi_b, 100, '00-11-22-33-44-55', '2001:db8::5', [10, 20]),
+            rc.evpn_type3(rd_b, 100, '10.1.1.1'), rc.evpn_type3(rd_b, 100, '2001:db8::7'),
+            rc.evpn_type4(rd_b, esi_b, '10.1.1.1'),
+            rc.evpn_type5(rd_b, esi_b, 100, '10.5.0.0/16', '10.0.0.9', [10]),
+            rc.evpn_type5(rd_b, esi_b, 100, '2001:db8:5::/48', '2001:db8::9', [10])]
+    for i, r in enumerate(evpn):
+        add('mp-evpn-%d' % i, attrs=base + rc.a_mp_reach(25, 70, rc.ip4('10.0.0.1'), r))
+    add('mp-evpn-unreach', attrs=rc.a_mp_unreach(25, 70, evpn[1] + evpn[3]))
+    fs = rc.fs_rule([rc.fs_prefix4(1, '10.1.0.0/16'), rc.fs_prefix4(2, '10.2.0.0/24'),
+                     rc.fs_component(3, rc.fs_numeric([(0, '=', 6), (0, '=', 17)])),
+                     rc.fs_component(5, rc.fs_numeric([(0, '>=', 1024), (1, '<=', 70000)]))])
+    add('mp-fs4', attrs=base + rc.a_mp_reach(1, 133, b'', fs))
+    add('mp-fs4-unreach', attrs=rc.a_mp_unreach(1, 133, fs))
+    fs6 = rc.fs_rule([bytes([1, 48, 0]) + rc.ip6('2001:db8:1::')[:6],
+                      rc.fs_component(3, rc.fs_numeric([(0, '=', 6)]))])
+    add('mp-fs6', attrs=base + rc.a_mp_reach(2, 133, b'', fs6))
+    for v in vectors.vectors():
+        if len(v) >= 12 and in_range(v):
+            out.append(('test-vector', v))
+        elif len(v) >= 31 and v[:16] == b'\xff' * 16 and v[18] == 2 and in_range(v[19:]):
+            out.append(('test-vector', v[19:]))
+    seen = set()
+    _CORPUS = []
+    for name, b in out:
+        if b not in seen:
+            seen.add(b)
+            _CORPUS.append((name, b))
+    return _CORPUS
+
+
+def field_mutations(body, values, max_pos=400):
+    n = len(body)
+    step = 1 if n <= max_pos else (n // max_pos + 1)
+    for i in range(0, n, step):
+        for nb in values:
+            if nb != body[i]:
+                yield i, body[:i] + bytes([nb]) + body[i + 1:]
+
+
 FILLERS = [lambda n: b'\x00' * n, lambda n: b'\xff' * n, lambda n: bytes(range(1, n + 1)),
            lambda n: (b'\x00\x03' * n)[:n], lambda n: (b'\x00\x00\x00\x04' * n)[:n], lambda n: (b'\x01\x00' * n)[:n],
            lambda n: (b'\x00\x05\x00\x03' * n)[:n]]
@@ -253,6 +339,11 @@ def shards(tier):
     for i in range(8):
         out.append({'name': 'lstlv-%d' % i, 'kind': 'lstlv', 'part': i, 'parts': 8,
                     'maxlen': 16 if tier == 'quick' else 24})
+    for i in range(16):
+        out.append({'name': 'field-values-%d' % i, 'kind': 'fields', 'part': i, 'parts': 16})
+    for i in range(4 if tier == 'quick' else 16):
+        out.append({'name': 'field-pairs-%d' % i, 'kind': 'fields2', 'examples': 1500 if tier == 'quick' else 60000,
+                    'hypothesis': True})
     nrand = 150 if tier == 'quick' else 6000
     for i in range(8):
         out.append({'name': 'random-%d' % i, 'kind': 'random', 'group': i, 'ngroups': 8, 'examples': nrand,
@@ -312,6 +403,43 @@ def run_shard(spec, seed, col, tier):
                             col.fail(sig, {'decoder': name, 'data': data.hex()}, detail)
                         n += 1
         col.bulk(n, n, label='lstlv-sublengths', sample={'decoder': 'lstlv/%d' % items[0], 'data': FILLERS[3](7).hex()})
+    elif kind == 'fields':
+        values = QUICK_VALUES if tier == 'quick' else list(range(256))
+        corpus = structured_corpus()
+        n = nt = k = 0
+        sample = None
+        for cname, body in corpus:
+            for pos, data in field_mutations(body, values):
+                k += 1
+                if k % spec['parts'] != spec['part']:
+                    continue
+                rng = in_range(data)
+                for name in UPDATE_ENTRY:
+                    for sig, detail in call(name, data, col):
+                        col.fail(sig, {'decoder': name, 'data': data.hex()}, detail)
+                    n += 1
+                    nt += 1 if rng else 0
+                if sample is None and rng:
+                    sample = {'decoder': UPDATE_ENTRY[0], 'data': data.hex(), 'base': cname, 'position': pos}
+        col.bulk(n, nt, label='field-values', sample=sample)
+    elif kind == 'fields2':
+        corpus = [b for _, b in structured_corpus()]
+        strat = st.tuples(st.sampled_from(UPDATE_ENTRY), st.sampled_from(corpus), st.lists(
+            st.tuples(st.integers(0, 4095), st.one_of(st.sampled_from(QUICK_VALUES), st.integers(0, 255))),
+            min_size=2, max_size=4))
+
+        def body2(t):
+            name, base, muts = t
+            b = bytearray(base)
+            for pos, val in muts:
+                b[pos % len(b)] = val
+            data = bytes(b)
+            case = {'decoder': name, 'data': data.hex()}
+            res = call(name, data, col)
+            col.case(case, in_range(data) and data != base, labels=['field-pairs'])
+            for sig, detail in res:
+                col.fail(sig, case, detail)
+        hyp_run(col, strat, body2, seed, spec['examples'])
     elif kind == 'three':
         names = ['LinkState.unpack/pro=2', 'BGPPrefixSID.unpack', 'BGPLS.parse', 'EVPN.parse', 'Open.parse/params',
                  'Open.parse/caps', 'IPv4FlowSpec.parse', 'IPv6FlowSpec.parse', 'ASPath.parse', 'Update.parse_attributes',
